@@ -261,6 +261,23 @@ def execute_plan(ctx, W, S, plan, lines, allow, cfg, ops):
                         ctx.probes["operator_queried_on_released_temporary"] += 1
                 except Exception:
                     pass
+            if kind == "invalid" and ops.chance(1, 3):
+                # the same operator answers a query on a state object in which the action is applicable; the caller
+                # then edits THAT object in place into the state of the plan (where it is not) and applies strictly
+                from .c03 import edit_in_place
+                S_app = C.force_applicable(cur, W.action(c[0]), c[1], W)
+                try:
+                    if interp.applicable(S_app, W.action(c[0]), c[1], W.D, W.objs) and set(S_app[1]) == set(cur[1]):
+                        dd2, pp2, st2 = C.lib_world(ctx, W, S_app, tag=f"-e{i}")
+                        op2 = L().Operator(dd2.actions[c[0]], dd2, list(c[1]), pp2.objects)
+                        if op2.is_applicable(st2):
+                            edit_in_place(dd2, st2, S_app, cur)
+                            direct(ctx, op2, st2, kind, want, c)
+                            ctx.probes["query_edit_in_place_apply"] += 1
+                except Violation:
+                    raise
+                except Exception:
+                    pass
             direct(ctx, op, st, kind, want, c)
         cur = want if kind == "valid" else (cur if (kind == "invalid" and not allow) else None)
     ctx.steps += len(plan)
